@@ -186,6 +186,18 @@ CLAIMS["C13"] = dict(
     technique="static analysis: CFG guard dominance / check-before-effect + call-graph walk for raw optional reads + one-sided comparison rule",
     design="DESIGN.md section 5, C13")
 
+CLAIMS["C16"] = dict(
+    text="Decided: identity flags (frozen dataclasses, Node metadata and count excluded from comparison, direction a ClassVar) so "
+         "ports compare and hash by node index and offset only; every handle-returning graph / builder method sets the output count "
+         "(add_node/_add_node, add_op after wiring, call, load, insert_hugr) and every container count update on self.parent_node is "
+         "stored back, with the parent's child-list copy refreshed; ToNode protocol rows as normal forms; the ValueError refusal of "
+         "slicing without any known bound and the three IndexError refusals of _normalize_index sit under the required tests "
+         "(edge-sensitive CFG control).",
+    note="Explicitly not decided: that integer / slice results equal range(n)[...] for all n and index expressions -- arithmetic "
+         "over run-time integers needs a relational numeric domain or a solver (another technique family).",
+    technique="static analysis: dataclass flag tables, handle dataflow rules over builder call sites, CFG control of refusal sites",
+    design="DESIGN.md section 5, C16")
+
 NOT_APPLICABLE_REASON: dict[str, str] = {}
 
 
